@@ -1,0 +1,140 @@
+//go:build verif
+
+// Contracts for the workflow parser (parse.go). Verified by govc (see /verif/DESIGN.md).
+
+package actionlint
+
+// Assumed about gopkg.in/yaml.v3 (library, not verified): a mapping node has an even number of
+// children. actionlint never writes Kind or Content of a node.
+//@ assume_inv yaml.Node: self.Kind == 4 ==> len(self.Content) % 2 == 0
+
+//@ func (*parser).parseMapping
+//@   ensures [C08] !caseSensitive ==> (forall j :: 0 <= j && j < len(result) ==> folded(result[j].id))
+//@   loop "i < len(n.Content)":
+//@     invariant [C01] 0 <= i && i % 2 == 0
+//@     invariant [C08] !caseSensitive ==> (forall j :: 0 <= j && j < len(m) ==> folded(m[j].id))
+//@     decreases len(n.Content) - i
+
+//@ func (*parser).parseSectionMapping
+//@   ensures [C08] !caseSensitive ==> (forall j :: 0 <= j && j < len(result) ==> folded(result[j].id))
+
+// Assumed about gopkg.in/yaml.v3: only sequence, mapping and document nodes have children.
+//@ assume_inv yaml.Node: (self.Kind == 8 || self.Kind == 16) ==> len(self.Content) == 0
+
+//@ func isNull
+//@   ensures result == (n.Kind == 8 && n.Tag == "!!null")
+
+// ---------------------------------------------------------------------------------------------
+// C13: in every section with a fixed key set, a key is reported as unexpected (at that key) iff it
+// is outside the documented set. The accepted sets below are written from GitHub's workflow
+// syntax reference, not from the code. `body_calls F iff C`: in every iteration of the loop the
+// call of F is reached iff C holds; `at_call F: E`: E holds at every such call.
+//@ func (*parser).parseWorkflowDispatchEvent
+//@   loop "range p.parseSectionMapping(\"workflow_dispatch\", n, true, true)":
+//@     body_calls [C13] (*parser).unexpectedKey iff !(kv.id == "inputs")
+//@     at_call [C13] (*parser).unexpectedKey: s == kv.key
+//@   loop "range p.parseMapping(\"input settings of workflow_dispatch event\", spec, true, true)":
+//@     body_calls [C13] (*parser).unexpectedKey iff !(attr.id == "description" || attr.id == "required" || attr.id == "default" || attr.id == "type" || attr.id == "options")
+//@     at_call [C13] (*parser).unexpectedKey: s == attr.key
+//@ func (*parser).parseRepositoryDispatchEvent
+//@   loop "range p.parseSectionMapping(\"repository_dispatch\", n, true, true)":
+//@     body_calls [C13] (*parser).unexpectedKey iff !(kv.id == "types")
+//@     at_call [C13] (*parser).unexpectedKey: s == kv.key
+//@ func (*parser).parseWebhookEvent
+//@   loop "range p.parseSectionMapping(name.Value, n, true, true)":
+//@     body_calls [C13] (*parser).unexpectedKey iff !(kv.id == "types" || kv.id == "branches" || kv.id == "branches-ignore" || kv.id == "tags" || kv.id == "tags-ignore" || kv.id == "paths" || kv.id == "paths-ignore" || kv.id == "workflows")
+//@     at_call [C13] (*parser).unexpectedKey: s == kv.key
+//@ func (*parser).parseWorkflowCallEvent
+//@   loop "range p.parseSectionMapping(\"workflow_call\", n, true, true)":
+//@     body_calls [C13] (*parser).unexpectedKey iff !(kv.id == "inputs" || kv.id == "secrets" || kv.id == "outputs")
+//@     at_call [C13] (*parser).unexpectedKey: s == kv.key
+//@   loop "range p.parseMapping(\"input of workflow_call event\", spec, true, true)":
+//@     body_calls [C13] (*parser).unexpectedKey iff !(attr.id == "description" || attr.id == "required" || attr.id == "default" || attr.id == "type")
+//@     at_call [C13] (*parser).unexpectedKey: s == attr.key
+//@   loop "range p.parseMapping(\"secret of workflow_call event\", spec, true, true)":
+//@     body_calls [C13] (*parser).unexpectedKey iff !(attr.id == "description" || attr.id == "required")
+//@     at_call [C13] (*parser).unexpectedKey: s == attr.key
+//@   loop "range p.parseMapping(\"output of workflow_call event\", spec, true, true)":
+//@     body_calls [C13] (*parser).unexpectedKey iff !(attr.id == "description" || attr.id == "value")
+//@     at_call [C13] (*parser).unexpectedKey: s == attr.key
+//@ func (*parser).parseDefaults
+//@   loop "range p.parseSectionMapping(\"defaults\", n, false, true)":
+//@     body_calls [C13] (*parser).unexpectedKey iff !(kv.id == "run")
+//@     at_call [C13] (*parser).unexpectedKey: s == kv.key
+//@   loop "range p.parseSectionMapping(\"run\", kv.val, false, true)":
+//@     body_calls [C13] (*parser).unexpectedKey iff !(attr.id == "shell" || attr.id == "working-directory")
+//@     at_call [C13] (*parser).unexpectedKey: s == attr.key
+//@ func (*parser).parseConcurrency
+//@   loop "range p.parseSectionMapping(\"concurrency\", n, false, true)":
+//@     body_calls [C13] (*parser).unexpectedKey iff !(kv.id == "group" || kv.id == "cancel-in-progress")
+//@     at_call [C13] (*parser).unexpectedKey: s == kv.key
+//@ func (*parser).parseEnvironment
+//@   loop "range p.parseSectionMapping(\"environment\", n, false, true)":
+//@     body_calls [C13] (*parser).unexpectedKey iff !(kv.id == "name" || kv.id == "url")
+//@     at_call [C13] (*parser).unexpectedKey: s == kv.key
+//@ func (*parser).parseStrategy
+//@   loop "range p.parseSectionMapping(\"strategy\", n, false, true)":
+//@     body_calls [C13] (*parser).unexpectedKey iff !(kv.id == "matrix" || kv.id == "fail-fast" || kv.id == "max-parallel")
+//@     at_call [C13] (*parser).unexpectedKey: s == kv.key
+//@ func (*parser).parseContainer
+//@   loop "range p.parseSectionMapping(sec, n, false, true)":
+//@     body_calls [C13] (*parser).unexpectedKey iff !(kv.id == "image" || kv.id == "credentials" || kv.id == "env" || kv.id == "ports" || kv.id == "volumes" || kv.id == "options")
+//@     at_call [C13] (*parser).unexpectedKey: s == kv.key
+//@   loop "range p.parseSectionMapping(\"credentials\", kv.val, false, true)":
+//@     body_calls [C13] (*parser).unexpectedKey iff !(c.id == "username" || c.id == "password")
+//@     at_call [C13] (*parser).unexpectedKey: s == c.key
+//@ func (*parser).parseStep
+//@   loop "range p.parseMapping(\"element of \\\"steps\\\" section\", n, false, true)":
+//@     body_calls [C13] (*parser).unexpectedKey iff !(kv.id == "id" || kv.id == "if" || kv.id == "name" || kv.id == "env" || kv.id == "continue-on-error" || kv.id == "timeout-minutes" || kv.id == "uses" || kv.id == "with" || kv.id == "run" || kv.id == "working-directory" || kv.id == "shell")
+//@     at_call [C13] (*parser).unexpectedKey: s == kv.key
+//@ func (*parser).parseRunsOn
+//@   loop "range p.parseSectionMapping(\"runs-on\", n, false, true)":
+//@     body_calls [C13] (*parser).unexpectedKey iff !(kv.id == "labels" || kv.id == "group")
+//@     at_call [C13] (*parser).unexpectedKey: s == kv.key
+//@ func (*parser).parseJob
+//@   loop "range p.parseMapping(fmt.Sprintf(\"%q job\", id.Value), n, false, true)":
+//@     body_calls [C13] (*parser).unexpectedKey iff !(kv.id == "name" || kv.id == "needs" || kv.id == "runs-on" || kv.id == "permissions" || kv.id == "environment" || kv.id == "concurrency" || kv.id == "outputs" || kv.id == "env" || kv.id == "defaults" || kv.id == "if" || kv.id == "steps" || kv.id == "timeout-minutes" || kv.id == "strategy" || kv.id == "continue-on-error" || kv.id == "container" || kv.id == "services" || kv.id == "uses" || kv.id == "with" || kv.id == "secrets")
+//@     at_call [C13] (*parser).unexpectedKey: s == kv.key
+//@ func (*parser).parse
+//@   loop "range p.parseMapping(\"workflow\", n.Content[0], false, true)":
+//@     body_calls [C13] (*parser).unexpectedKey iff !(kv.id == "name" || kv.id == "run-name" || kv.id == "on" || kv.id == "permissions" || kv.id == "env" || kv.id == "defaults" || kv.id == "concurrency" || kv.id == "jobs")
+//@     at_call [C13] (*parser).unexpectedKey: s == kv.key
+
+// ---------------------------------------------------------------------------------------------
+// C13: schedule items, mandatory keys. "reported" is expressed through the parser's error log:
+// every reporting primitive appends exactly one error, nothing ever removes one.
+//@ func (*parser).error
+//@   ensures len(p.errors) == old(len(p.errors)) + 1
+//@ func (*parser).errorAt
+//@   ensures len(p.errors) == old(len(p.errors)) + 1
+//@ func (*parser).errorf
+//@   ensures len(p.errors) == old(len(p.errors)) + 1
+//@ func (*parser).errorfAt
+//@   ensures len(p.errors) == old(len(p.errors)) + 1
+//@ func (*parser).unexpectedKey
+//@   ensures len(p.errors) == old(len(p.errors)) + 1
+//@ auto_ensures ^\(\*parser\)\.: len(p.errors) >= old(len(p.errors))
+
+//@ func (*parser).parseScheduleEvent
+//@   loop "range n.Content":
+//@     body_calls [C13] (*parser).error iff !(len(m) == 1 && m[0].id == "cron")
+//@     at_call [C13] (*parser).error: n == c
+
+//@ func (*parser).parse
+//@   ensures [C13] result.On == nil ==> len(p.errors) > old(len(p.errors))
+//@   ensures [C13] result.Jobs == nil ==> len(p.errors) > old(len(p.errors))
+//@ func (*parser).parseJob
+//@   ensures [C13] result.WorkflowCall == nil && result.Steps == nil ==> len(p.errors) > old(len(p.errors))
+//@   ensures [C13] result.WorkflowCall == nil && result.RunsOn == nil ==> len(p.errors) > old(len(p.errors))
+//@ func (*parser).parseStep
+//@   ensures [C13] result.Exec == nil ==> len(p.errors) > old(len(p.errors))
+//@   ensures [C13] istype(result.Exec, "*ExecRun") && dyn(result.Exec, "*ExecRun").Run == nil ==> len(p.errors) > old(len(p.errors))
+//@   ensures [C13] istype(result.Exec, "*ExecAction") && dyn(result.Exec, "*ExecAction").Uses == nil ==> len(p.errors) > old(len(p.errors))
+//@ func (*parser).parseConcurrency
+//@   ensures [C13] result.Group == nil ==> len(p.errors) > old(len(p.errors))
+//@ func (*parser).parseEnvironment
+//@   ensures [C13] result.Name == nil ==> len(p.errors) > old(len(p.errors))
+//@ func (*parser).parseDefaults
+//@   ensures [C13] result.Run == nil ==> len(p.errors) > old(len(p.errors))
+//@ func (*parser).parseCredentials
+//@   ensures [C13] result == nil ==> len(p.errors) > old(len(p.errors))
